@@ -103,7 +103,7 @@ Fixpoint bad (i : Z) (cs : list (list op * (Z * bytes * Z))) : list Z :=
 """
 
 
-def spec_outcome(h):
+def spec_outcome(h, fill=46):
     """The property itself, as a sparse array (independent of the model and of the implementation)."""
     cells, ext, cur = {}, 0, 0
     def ins(p, b):
@@ -131,7 +131,7 @@ def spec_outcome(h):
             ok = True
         if not ok:
             return ['collision', k]
-    return ['ok', bytes(cells.get(q, 46) for q in range(ext)).hex(), cur]
+    return ['ok', bytes(cells.get(q, fill) for q in range(ext)).hex(), cur]
 
 
 def run(tier, seed, rng):
@@ -158,6 +158,18 @@ def run(tier, seed, rng):
         if o[:3] != want[:3]:
             failures.append(dict(kind='oracle', history=h, observed=o, required=want,
                                  what='Fragments history: implementation differs from the sparse-array statement'))
+    # ---- buffers with OTHER fill bytes (Fragments(fill=...)), many of them in one process, holes of equal sizes: every hole of a
+    # buffer reads as that buffer's own fill byte (a sample of the histories above, fills in rotation; statement with that fill byte)
+    fills = [0x2e, 0x00, 0xff, 0x2d, 0x2e, 0x20, 0x00]
+    fhs = [h for h, o in zip(hs, outcomes) if o[0] == 'ok' and '2e' in o[1]][:: (1 if tier != 'quick' else 7)][:6000]
+    fcases = [dict(fill='%02x' % fills[k % len(fills)], history=h) for k, h in enumerate(fhs)]
+    fouts = run_impl(os.path.join(VERIF, 'harness', 'impl_frag.py'), {'fills': fcases})
+    dist['other_fill_bytes'] = len(fcases)
+    for c, o in zip(fcases, fouts):
+        want = spec_outcome(c['history'], int(c['fill'], 16))
+        if o[:3] != want[:3]:
+            failures.append(dict(kind='oracle', sig='fill-byte', history=c['history'], fill=c['fill'], observed=o, required=want,
+                                 what=f"Fragments(fill=0x{c['fill']}) after other buffers with other fill bytes were rendered in the same process: the holes do not read as this buffer's fill byte"))
     # ---- a caller that CATCHES the collision and goes on: a rejected insertion leaves the array as it was -- stored bytes, extent and
     # cursor -- so what follows lands where it would have landed without the rejected call (implementation against the statement only)
     chs = []
